@@ -24,6 +24,7 @@ REGISTRY = {
     "C11": "crossratio",
     "C12": "purity",
     "C13": "quadctors",
+    "C14": "quadline",
     "C16": "membership",
     "C17": "measures",
     "C18": "intersect",
